@@ -91,8 +91,18 @@ func buildBlocks(params *chaincfg.Params, parents []int, bad map[int]bool) []*bt
 	return blocks
 }
 
-// newRegtestChain opens a fresh chain on ffldb in a temp dir.
-func newRegtestChain(params *chaincfg.Params) (*blockchain.BlockChain, func()) {
+// regChain is one real regtest chain on ffldb in a temp dir; it can be closed and re-opened on the
+// same database with a different configuration.
+type regChain struct {
+	params *chaincfg.Params
+	dir    string
+	db     database.DB
+	chain  *blockchain.BlockChain
+}
+
+var utxoCacheSizes = []uint64{1 << 20, 0, 1 << 10, 250 << 20, 1}
+
+func newRegChain(params *chaincfg.Params) *regChain {
 	base := ""
 	if st, e := os.Stat("/dev/shm"); e == nil && st.IsDir() {
 		base = "/dev/shm" // tmpfs: ffldb's fsync per commit costs nothing there
@@ -101,25 +111,48 @@ func newRegtestChain(params *chaincfg.Params) (*blockchain.BlockChain, func()) {
 	if err != nil {
 		panic(err)
 	}
-	db, err := database.Create("ffldb", filepath.Join(dir, "db"), params.Net)
+	c := &regChain{params: params, dir: dir}
+	c.db, err = database.Create("ffldb", filepath.Join(dir, "db"), params.Net)
 	if err != nil {
 		os.RemoveAll(dir)
 		panic(err)
 	}
-	chain, err := blockchain.New(&blockchain.Config{
-		DB: db, ChainParams: params, TimeSource: blockchain.NewMedianTime(),
-		UtxoCacheMaxSize: 1 << 20,
-	})
-	if err != nil {
-		db.Close()
-		os.RemoveAll(dir)
-		panic(err)
-	}
-	return chain, func() { db.Close(); os.RemoveAll(dir) }
+	c.open(0)
+	return c
 }
 
+func (c *regChain) open(k int) {
+	chain, err := blockchain.New(&blockchain.Config{
+		DB: c.db, ChainParams: c.params, TimeSource: blockchain.NewMedianTime(),
+		UtxoCacheMaxSize: utxoCacheSizes[k%len(utxoCacheSizes)],
+	})
+	if err != nil {
+		c.close()
+		panic(err)
+	}
+	c.chain = chain
+}
+
+// restart = clean shutdown (utxo cache flushed), database closed and re-opened, new BlockChain with
+// another utxo cache size.
+func (c *regChain) restart(k int) {
+	if err := c.chain.FlushUtxoCache(blockchain.FlushRequired); err != nil {
+		panic(err)
+	}
+	c.db.Close()
+	db, err := database.Open("ffldb", filepath.Join(c.dir, "db"), c.params.Net)
+	if err != nil {
+		os.RemoveAll(c.dir)
+		panic(err)
+	}
+	c.db = db
+	c.open(k)
+}
+
+func (c *regChain) close() { c.db.Close(); os.RemoveAll(c.dir) }
+
 func execHeadersFirst(f []string) string {
-	// f = [segs, badlist, deliveries…]
+	// f = [segs, badlist, deliveries…]; delivery = h<id> | b<id> | r<k> (restart)
 	if len(f) < 2 {
 		return "bad-op"
 	}
@@ -140,25 +173,46 @@ func execHeadersFirst(f []string) string {
 	for i, b := range blocks {
 		ids[*b.Hash()] = i
 	}
-	chain, cleanup := newRegtestChain(&params)
-	defer cleanup()
+	for _, d := range f[2:] {
+		if len(d) < 2 {
+			return "bad-op"
+		}
+		id := atoi(d[1:])
+		if d[0] != 'r' && (id < 1 || id >= len(blocks)) || !strings.ContainsRune("hbr", rune(d[0])) {
+			return "bad-op"
+		}
+	}
+	rc := newRegChain(&params)
+	defer func() { rc.close() }()
 	idOf := func(h chainhash.Hash) string {
 		if id, ok := ids[h]; ok {
 			return strconv.Itoa(id)
 		}
 		return "?"
 	}
+	obs := func() string {
+		chain := rc.chain
+		bh, bhh := chain.BestHeader()
+		snap := chain.BestSnapshot()
+		tips := chain.ChainTips()
+		sort.Slice(tips, func(i, j int) bool { return ids[tips[i].BlockHash] < ids[tips[j].BlockHash] })
+		ts := make([]string, len(tips))
+		for i, t := range tips {
+			ts[i] = fmt.Sprintf("%s.%d.%d", idOf(t.BlockHash), t.Status, t.BranchLen)
+		}
+		return fmt.Sprintf("%s@%d/%s@%d/f%d/%s", idOf(bh), bhh, idOf(snap.Hash), snap.Height,
+			chain.BestChainHeaderForkHeight(), strings.Join(ts, ","))
+	}
 	var out []string
 	for _, d := range f[2:] {
-		if len(d) < 2 {
-			return "bad-op"
-		}
 		id := atoi(d[1:])
-		if id < 1 || id >= len(blocks) {
-			return "bad-op"
-		}
+		chain := rc.chain
 		var res string
 		switch d[0] {
+		case 'r':
+			rc.restart(id)
+			out = append(out, "restart/"+obs())
+			continue
 		case 'h':
 			hdr := blocks[id].MsgBlock().Header
 			main, err := chain.ProcessBlockHeader(&hdr, blockchain.BFNone, false)
@@ -184,26 +238,22 @@ func execHeadersFirst(f []string) string {
 			default:
 				res = "side"
 			}
-		default:
-			return "bad-op"
 		}
-		bh, bhh := chain.BestHeader()
-		snap := chain.BestSnapshot()
-		valid := "0"
-		if chain.IsValidHeader(blocks[id].Hash()) {
-			valid = "1"
+		h := blocks[id].Hash()
+		have, err := chain.HaveBlock(h)
+		if err != nil {
+			panic(err)
 		}
-		tips := chain.ChainTips()
-		sort.Slice(tips, func(i, j int) bool { return ids[tips[i].BlockHash] < ids[tips[j].BlockHash] })
-		ts := make([]string, len(tips))
-		for i, t := range tips {
-			ts[i] = fmt.Sprintf("%s.%d.%d", idOf(t.BlockHash), t.Status, t.BranchLen)
+		hh := "-"
+		if ht, err := chain.HeaderHeightByHash(*h); err == nil {
+			hh = strconv.Itoa(int(ht))
 		}
-		out = append(out, fmt.Sprintf("%s/%s@%d/%s@%d/%s/f%d/%s", res, idOf(bh), bhh, idOf(snap.Hash), snap.Height, valid,
-			chain.BestChainHeaderForkHeight(), strings.Join(ts, ",")))
+		out = append(out, fmt.Sprintf("%s/%s/%s%s/%s/%s/%s", res, b01(chain.IsValidHeader(h)),
+			b01(have), b01(chain.IsKnownOrphan(h)), idOf(*chain.GetOrphanRoot(h)), hh, obs()))
 	}
 	// final observations: best-header chain by height, its locator, and the tip reached by the
 	// block deliveries alone on a second chain
+	chain := rc.chain
 	maxH := int32(0)
 	hts := make([]int32, len(blocks))
 	for i, p := range parents {
@@ -226,25 +276,26 @@ func execHeadersFirst(f []string) string {
 	for i, h := range loc {
 		hloc[i] = idOf(*h)
 	}
-	chain2, cleanup2 := newRegtestChain(&params)
-	defer cleanup2()
+	rc2 := newRegChain(&params)
+	defer rc2.close()
 	for _, d := range f[2:] {
 		if d[0] == 'b' {
-			chain2.ProcessBlock(btcutil.NewBlock(blocks[atoi(d[1:])].MsgBlock()), blockchain.BFNone)
+			rc2.chain.ProcessBlock(btcutil.NewBlock(blocks[atoi(d[1:])].MsgBlock()), blockchain.BFNone)
 		}
 	}
-	snap2 := chain2.BestSnapshot()
+	snap2 := rc2.chain.BestSnapshot()
 	out = append(out, "hdrs="+strings.Join(hdrs, "."), "hloc="+strings.Join(hloc, "."),
 		fmt.Sprintf("blocksonly=%s@%d", idOf(snap2.Hash), snap2.Height))
 	return strings.Join(out, "|")
 }
 
-// genHeadersFirst: random small trees, deliveries = random interleavings of the
-// headers and blocks of the tree (parents mostly before children, some out of
-// order, duplicates), a few invalid blocks delivered when they extend the tip.
+// genHeadersFirst: random small trees of real regtest blocks, some of them invalid (coinbase pays
+// too much) anywhere in the tree; deliveries = headers only / blocks only / headers then blocks /
+// random interleavings, mostly parents first with some disorder and duplicates; some histories
+// restart the chain (new BlockChain on the same database with another utxo cache size).
 func genHeadersFirst(g *core.Gen) {
 	r := g.R
-	for i := 0; i < g.N(160, 1500); i++ {
+	for i := 0; i < g.N(200, 1500); i++ {
 		t := newTree()
 		n := r.Intn(12) + 2
 		for t.n() <= n {
@@ -254,58 +305,17 @@ func genHeadersFirst(g *core.Gen) {
 			}
 			t.addSeg(p, r.Intn(3)+1)
 		}
-		mode := r.Intn(4) // 0 headers only, 1 blocks only, 2 headers then blocks, 3 mixed
-		// simulation of the block side, to decide where an invalid block may be delivered
-		data := map[int]bool{0: true}
-		failed := map[int]bool{}
-		tip := 0
-		work := func(id int) int { return t.height[id] }
-		parent := func(id int) int { return t.parents[id-1] }
-		orphans := []int{}
 		var bad []int
-		var accept func(id int)
-		accept = func(id int) {
-			p := parent(id)
-			if failed[p] {
-				return
-			}
-			data[id] = true
-			if p == tip || work(id) > work(tip) {
-				tip = id
-			}
-		}
-		deliverBlock := func(id int) {
-			if data[id] {
-				return
-			}
-			for _, o := range orphans {
-				if o == id {
-					return
+		if r.Chance(2, 3) {
+			for id := 1; id < t.n(); id++ {
+				if r.Chance(1, 6) {
+					bad = append(bad, id)
 				}
 			}
-			if !data[parent(id)] {
-				orphans = append(orphans, id)
-				return
-			}
-			accept(id)
-			queue := []int{id}
-			for len(queue) > 0 {
-				q := queue[0]
-				queue = queue[1:]
-				rest := orphans[:0:0]
-				for _, o := range orphans {
-					if parent(o) == q && data[q] {
-						accept(o)
-						queue = append(queue, o)
-					} else {
-						rest = append(rest, o)
-					}
-				}
-				orphans = rest
-			}
 		}
+		mode := r.Intn(5) // 0 headers only, 1 blocks only, 2 headers then blocks, 3/4 mixed
 		var ds []string
-		order := func() []int { // mostly topological order with some disorder
+		order := func() []int { // mostly creation (topological) order with some disorder
 			ids := make([]int, 0, t.n()-1)
 			for id := 1; id < t.n(); id++ {
 				ids = append(ids, id)
@@ -314,26 +324,23 @@ func genHeadersFirst(g *core.Gen) {
 				a, b := r.Intn(len(ids)), r.Intn(len(ids))
 				ids[a], ids[b] = ids[b], ids[a]
 			}
-			if r.Chance(1, 5) {
+			switch r.Intn(6) {
+			case 0: // full shuffle
 				for i := len(ids) - 1; i > 0; i-- {
 					j := r.Intn(i + 1)
+					ids[i], ids[j] = ids[j], ids[i]
+				}
+			case 1: // reverse: every block but the last is an orphan first
+				for i, j := 0, len(ids)-1; i < j; i, j = i+1, j-1 {
 					ids[i], ids[j] = ids[j], ids[i]
 				}
 			}
 			return ids
 		}
-		block := func(id int) {
-			// an invalid version of this block may be delivered when it would extend the tip
-			// (in every other position the light block model does not cover the outcome)
-			if id != 0 && !data[id] && data[parent(id)] && parent(id) == tip && len(orphans) == 0 && r.Chance(1, 3) {
-				bad = append(bad, id)
-				failed[id] = true
-				data[id] = true
-				ds = append(ds, fmt.Sprintf("b%d", id))
-				return
+		maybeRestart := func() {
+			if r.Chance(1, 14) {
+				ds = append(ds, fmt.Sprintf("r%d", r.Intn(5)))
 			}
-			deliverBlock(id)
-			ds = append(ds, fmt.Sprintf("b%d", id))
 		}
 		switch mode {
 		case 0:
@@ -345,35 +352,34 @@ func genHeadersFirst(g *core.Gen) {
 			}
 		case 1:
 			for _, id := range order() {
-				block(id)
+				ds = append(ds, fmt.Sprintf("b%d", id))
+				maybeRestart()
 			}
 			for k := r.Intn(3); k > 0; k-- {
-				block(1 + r.Intn(t.n()-1))
+				ds = append(ds, fmt.Sprintf("b%d", 1+r.Intn(t.n()-1)))
 			}
 		case 2:
 			for _, id := range order() {
 				ds = append(ds, fmt.Sprintf("h%d", id))
 			}
 			for _, id := range order() {
-				block(id)
+				ds = append(ds, fmt.Sprintf("b%d", id))
 			}
-		case 3:
+		default:
 			hs, bs := order(), order()
 			for len(hs) > 0 || len(bs) > 0 {
 				if len(bs) == 0 || (len(hs) > 0 && r.Bool()) {
 					ds = append(ds, fmt.Sprintf("h%d", hs[0]))
 					hs = hs[1:]
 				} else {
-					block(bs[0])
+					ds = append(ds, fmt.Sprintf("b%d", bs[0]))
 					bs = bs[1:]
 				}
 				if r.Chance(1, 8) {
-					id := 1 + r.Intn(t.n()-1)
-					if r.Bool() {
-						ds = append(ds, fmt.Sprintf("h%d", id))
-					} else {
-						block(id)
-					}
+					ds = append(ds, fmt.Sprintf("%c%d", "hb"[r.Intn(2)], 1+r.Intn(t.n()-1)))
+				}
+				if mode == 4 {
+					maybeRestart()
 				}
 			}
 			// headers of everything again at the end: descendants of invalid blocks are refused
@@ -381,7 +387,7 @@ func genHeadersFirst(g *core.Gen) {
 				ds = append(ds, fmt.Sprintf("h%d", id))
 			}
 		}
-		class := []string{"hf-headers-only", "hf-blocks-only", "hf-headers-then-blocks", "hf-mixed"}[mode]
+		class := []string{"hf-headers-only", "hf-blocks-only", "hf-headers-then-blocks", "hf-mixed", "hf-mixed-restarts"}[mode]
 		g.Case(class, len(ds) > 3, fmt.Sprintf("C17 hf %s %s %s", t, joinInts(bad), strings.Join(ds, " ")))
 	}
 }
